@@ -5,7 +5,7 @@
    `pinned` = the tree as found (existing-bridge and routing branches before any credential check).
    Clients, mapping ids, secrets, tunnel ids, connection ids are arbitrary numbers (N): nothing below is bounded.
    The tables regenerated from the code (Gen/C04.v) are tied to the model in Proofs/SideC04.v. *)
-From TX Require Import Model.TunnelOpen Proofs.TunnelOpen Proofs.SideC04 Gen.C04.
+From TX Require Import Base.Threads Model.TunnelOpen Proofs.TunnelOpen Model.TunnelRace Proofs.TunnelRace Proofs.SideC04 Gen.C04.
 From Coq Require Import List NArith Bool.
 Import ListNotations.
 Open Scope N_scope.
@@ -72,11 +72,12 @@ Qed.
 Print Assumptions C04_refused_gets_no_bytes.
 
 (* (5) the finite table the harness drives through the real SessionManager.HandlePacket — identity (5) x named mapping
-   (3) x secret (3) x resume token (2) x state of the named mapping (5) x tunnel state at arrival (4) = 1800 cells, the
+   (3) x secret (10: none, right, unrelated, strict prefixes, suffix, right+1, case-flipped, one character changed, another
+   mapping's secret) x resume token (2) x state of the named mapping (5) x tunnel state at arrival (4) = 6000 cells, the
    bound being exactly the cell type: on every cell an attachment implies entitlement, and a request that is not
    entitled is refused WITH a failure acknowledgement *)
 Theorem C04_table_all_cells :
-  length all_cells = 1800%nat /\
+  N.of_nat (length all_cells) = 6000%N /\
   (forall c, In c all_cells -> cell_ok current c = true) /\
   (forall c : cell, attaches (cell_open current c) = true -> cell_entitled c = true) /\
   (forall c : cell, cell_entitled c = false -> cell_open current c = Refuse true).
@@ -136,4 +137,44 @@ Theorem C04_pinned_parked_refuted :
     In (cr, t, false) (s_log (run pinned ex_cfg (init d (fun _ => None)) es)).
 Proof. exact pinned_parked_refuted. Qed.
 Print Assumptions C04_pinned_parked_refuted.
+
+(* (7) concurrency — handleTunnelOpen is two critical sections (validate + tunnelBridges lookup; later create / attach).
+   For ANY number of concurrent requests (any identities, mappings, secrets, tunnel ids) and ANY schedule of their atomic
+   actions, in the code with fixes/C04-late-bridge-mapping-agreement.diff: a connection wired into a bridge got there through an
+   attachment that was entitled to THAT bridge's mapping ... *)
+Theorem C04_all_interleavings_attach_implies_entitled :
+  forall (d : db) (ths : list rlocal) (sched : list nat) cr t,
+    Forall (fun lo => l_pc lo = PcLookup) ths ->
+    rholds (fst (rrun fixed_variant d (rinit ths) sched)) cr t ->
+    In (cr, t, true) (sh_log (fst (rrun fixed_variant d (rinit ths) sched))).
+Proof. exact race_attach_implies_entitled. Qed.
+Print Assumptions C04_all_interleavings_attach_implies_entitled.
+
+(* ... and the mapping of a registered bridge never changes (every variant, every schedule) *)
+Theorem C04_bridge_mapping_never_changes :
+  forall rv d sched (s : rstate) t m,
+    (exists b, sh_tun (fst s) t = Some b /\ b_mid b = m) ->
+    exists b, sh_tun (fst (rrun rv d s sched)) t = Some b /\ b_mid b = m.
+Proof. exact race_bridge_mapping_stable. Qed.
+Print Assumptions C04_bridge_mapping_never_changes.
+
+(* the tree with only the first repairs is refuted by one interleaving (B looks up, A creates, B attaches): mapping 2's target
+   client becomes target of mapping 1's tunnel; so is a startSourceBridge that re-attaches to a registered bridge *)
+Theorem C04_head_interleaving_refuted :
+  (let s := rrun head_variant ex_db2 (rinit [race_A; race_B_target]) race_sched in
+   sh_tun (fst s) 9 = Some {| b_mid := 1; b_src := Some 1; b_tgt := Some 2 |} /\ In (2, 9, false) (sh_log (fst s))) /\
+  (let s := rrun {| late_agree := true; source_reattach := true |} ex_db2 (rinit [race_A; race_B_listen]) race_sched in
+   sh_tun (fst s) 9 = Some {| b_mid := 1; b_src := Some 2; b_tgt := None |} /\ In (2, 9, false) (sh_log (fst s))).
+Proof. exact (conj head_race_refuted source_reattach_refuted). Qed.
+Print Assumptions C04_head_interleaving_refuted.
+
+(* non-vacuity of (7): the racing wrong-mapping request is left out, the other order works, an early entitled target attaches *)
+Theorem C04_interleaving_witnesses :
+  sh_tun (fst (rrun fixed_variant ex_db2 (rinit [race_A; race_B_target]) race_sched)) 9 = Some {| b_mid := 1; b_src := Some 1; b_tgt := None |} /\
+  sh_log (fst (rrun fixed_variant ex_db2 (rinit [race_A; race_B_target]) race_sched)) = [(1, 9, true)] /\
+  sh_tun (fst (rrun fixed_variant ex_db2 (rinit [race_A; race_B_listen]) [1; 1; 0; 0]%nat)) 9 = Some {| b_mid := 2; b_src := Some 2; b_tgt := None |} /\
+  sh_tun (fst (rrun fixed_variant ex_db2 (rinit [race_A; request_thread 2 ex_tgt (ex_req9 1 101)]) race_sched)) 9
+    = Some {| b_mid := 1; b_src := Some 1; b_tgt := Some 2 |}.
+Proof. exact fixed_race_witness. Qed.
+Print Assumptions C04_interleaving_witnesses.
 Close Scope N_scope.
